@@ -82,6 +82,18 @@ class Long(object):
             self.ev.append({'e': 'setfn', 'p': 'p1', 'name': name, 'c': c})
         self.ev.append({'e': 'listen', 'p': 'p1', 'kind': 'cell', 'sets': self.env['cellsets']})
         self.ev.append({'e': 'listen', 'p': 'p1', 'kind': 'raises', 'sets': self.env['raises']})
+        # a second parser object lives in the same process and binds the same and other names differently:
+        # "depends only on ... the variables, functions and listeners registered on that parser"
+        self.decoy = lib.Parser()
+        for name, v in DECOY_VARS:
+            self.decoy.set_variable(name, values.dec(v))
+            self.ev.append({'e': 'setvar', 'p': 'p2', 'name': name, 'v': v})
+        for name, c in DECOY_FUNCS:
+            self.decoy.set_function(name, (lambda c: lambda *a: values.dec(c['v']))(c))
+            self.ev.append({'e': 'setfn', 'p': 'p2', 'name': name, 'c': c})
+        sets = [{'key': F.cps('A1'), 'vals': [enc(12345)]}]
+        self.decoy.on('callCellValue', lambda cell, setter: setter(12345))
+        self.ev.append({'e': 'listen', 'p': 'p2', 'kind': 'cell', 'sets': sets})
 
     def setvar(self, name, v):
         self.h.p.set_variable(name, values.dec(v))
@@ -109,6 +121,9 @@ class Long(object):
         return o
 
 
+DECOY_VARS = [('va', enc(999)), ('vb', enc('zz')), ('nosuch', enc(1)), ('vl', enc([9])), ('NULL', enc(4))]
+DECOY_FUNCS = [('K', {'mode': 'const', 'v': enc(1000), 'i': 0}), ('NOSUCHFN', {'mode': 'const', 'v': enc(5), 'i': 0}),
+               ('ABS', {'mode': 'const', 'v': enc(-1), 'i': 0})]
 TRANSIENT = {'cellexc': ['cell:*'], 'rangeexc': ['range:*'], 'fnlistenerexc': ['fn:K']}
 BASE_RAISES = ['var:vraise']
 
